@@ -33,16 +33,12 @@ ClearEarliest(c, off) ==
                ELSE rest
 
 \* commitLog.LastOffsetForLeaderEpoch: the start offset of the first epoch larger
-\* than e, or the newest offset if there is none.  The cache reports "none" as
-\* -1, so a real start offset of -1 (an epoch that began on an empty log) is
-\* indistinguishable from "none" and is answered with the newest offset too.
-EpochStartAfter(c, e) ==
-  LET I == {i \in 1..Len(c) : c[i].e >= e + 1}
-  IN IF I = {} THEN -1 ELSE c[CHOOSE i \in I : \A j \in I : i <= j].s
+\* than e, or the newest offset if there is none (a later epoch that started on
+\* an empty log has start offset -1 and is answered with -1; before /repo commit
+\* f0026b7 that case was confused with "none").
 LastOffsetForEpoch(c, e, newest) ==
-  IF EpochStartAfter(c, e) = -1 THEN newest ELSE EpochStartAfter(c, e)
-\* TRUE when the -1 ambiguity above is hit
-EpochStartAmbiguous(c, e) == \E i \in 1..Len(c) : c[i].e >= e + 1 /\ EpochStartAfter(c, e) = -1
+  LET I == {i \in 1..Len(c) : c[i].e >= e + 1}
+  IN IF I = {} THEN newest ELSE c[CHOOSE i \in I : \A j \in I : i <= j].s
 
 EpochsWellFormed(c) ==
   \A i \in 1..Len(c) - 1 : c[i].e < c[i + 1].e /\ c[i].s <= c[i + 1].s
